@@ -4,7 +4,7 @@ proof         : coq/props/C20.v (pure part only) - the file reader and the text 
                 string without exotic separators into the same rows, hence load = loads on the model
 correspondence: kernpy.load(file) vs the model's file-mode import (bytes of the file), on real temporary files
 monitor       : on real files and subprocesses: load(file) = loads(text) (whole tree), dump writes what dumps returns (missing
-                directories created), `python -m kernpy --kern2ekern / --ekern2kern` (single file, directory, recursive or
+                directories created; a second dump over an existing file, same and other size), `python -m kernpy --kern2ekern / --ekern2kern` (single file, directory, recursive or
                 not) write exactly what the API produces, and ekern -> kern -> ekern returns the original ekern.
                 PARTIAL: open() / encodings / argparse / glob / exit codes cannot be modelled in Gallina.
 """
@@ -107,6 +107,30 @@ def file_worker(kp, job):
                 if written != s:
                     v.append(('dump-equals-dumps', f'dump wrote something else than dumps returns (options {o})', {'text': text, 'options': o}))
                 records.append(engine.rec('dump', impl=s, req=docs.model_dumps_req(bad, text, **o), viol=v, kind='dump', key=('dump', text, str(o))))
+        # a second dump over an existing file: the file must hold the NEW export, also when it has the same length
+        if d2 is not None and not exotic:
+            import re
+            m = list(re.finditer(r'(?<=[0-9.])([a-g])\1*', text))
+            if m:
+                k = rng.choice(m)
+                text_b = text[:k.start()] + chr((ord(k.group(1)) - 97 + 1) % 7 + 97) * (k.end() - k.start()) + text[k.end():]
+                try:
+                    db, eb = kp.loads(text_b)
+                    sa, sb = kp.dumps(d2), kp.dumps(db)
+                    same = os.path.join(tmp, 'same.krn')
+                    kp.dump(d2, same)
+                    kp.dump(db, same)
+                    with open(same, encoding='utf-8', newline='') as f:
+                        got = f.read()
+                    v = []
+                    if got != sb:
+                        v.append(('dump-equals-dumps', f'a second dump over an existing file left other content than dumps returns (old and new export have '
+                                  f'{len(sa.encode())} / {len(sb.encode())} bytes; file equals the OLD export: {got == sa})', {'text': text, 'second': text_b}))
+                    records.append(engine.rec('dump-over', viol=v, kind='dump-over:' + ('same-size' if len(sa.encode()) == len(sb.encode()) else 'other-size'),
+                                              key=('dump-over', text, text_b)))
+                except Exception as e:
+                    records.append(engine.rec('dump-over', viol=[('dump-equals-dumps', f'second dump raised {type(e).__name__}', {'text': text, 'second': text_b})],
+                                              kind='dump-over', key=('dump-over', text, text_b)))
     finally:
         shutil.rmtree(tmp, ignore_errors=True)
     return {'records': records}
